@@ -984,6 +984,15 @@ def strip(op):
     return {k: v for k, v in op.items() if k != 'hdr'}
 
 
+# Sharing that the code as found does and that the STATEMENT of C19 does not forbid (it speaks of transformations leaving their
+# input untouched and of arguments left unchanged, not of lists handed out by iteration): iterating over a formula or slicing it
+# yields the stored lists; add_constraint keeps a (coefficient, literal) pair given as a two-element list.  The model carries
+# both as switches (lv_iter, lv_pair) set by probing the code; the theorems state exactly which histories are affected
+# (client_separated_as_found_refuted ...).  They are tallied, not reported.  F[i] / clauses()[i] handing out a live list IS
+# reported: copy-on-access there is the mechanism the property names.
+OUTSIDE_STATEMENT = {('iter', 'returned-list-live'), ('slice', 'returned-list-live'), ('add_constraint', 'argument-kept-by-reference')}
+
+
 def probe_liveness():
     import_impl()
     from cnfgen.formula.cnf import CNF
@@ -1096,6 +1105,9 @@ def run_alias(ctx):
         ctx.tally('alias: history length', '%d-%d' % (len(hist) // 10 * 10, len(hist) // 10 * 10 + 9))
         seen = set()
         for f in fails:
+            if (f[1], f[2]) in OUTSIDE_STATEMENT:
+                ctx.tally('alias: sharing observed that the statement of C19 does not forbid (model variant as found)', '%s/%s' % (f[1], f[2]))
+                continue
             if (f[1], f[2]) not in seen:
                 seen.add((f[1], f[2]))
                 report_direct(hist, f)
@@ -1112,7 +1124,7 @@ def run_alias(ctx):
         ctx.disagreements_checked += 1
         i, part, what = mm
         earlier = [f for f in fails if f[0] <= i]
-        unknown = [f for f in earlier if not any(k.get('status') == 'finding' and k.get('site') == f[1] and k.get('class') == f[2] for k in ctx.findings)]
+        unknown = [f for f in earlier if (f[1], f[2]) not in OUTSIDE_STATEMENT]
         if unknown:
             continue        # the property itself fails here; already reported with its failing input
         key = ('model', part)
